@@ -251,8 +251,39 @@ impl Tagged for Arrd {
     }
 }
 
+/// A result whose destructor PANICS when the runtime drops it (not when the probe drops a value it
+/// was given by join: that would be the probe's own thread panicking).  Only used in scenarios where
+/// the handle is dropped first, so that the thread itself has to drop the value.
+struct Pd {
+    k: u32,
+    t: u64,
+    by_probe: bool,
+}
+impl Drop for Pd {
+    fn drop(&mut self) {
+        Ev::new("vdrop").u("k", self.k as u64).b("by_probe", self.by_probe).emit();
+        if !self.by_probe {
+            Ev::new("vpanic").u("k", self.k as u64).emit();
+            panic!("probe: the destructor of the thread's return value panics");
+        }
+    }
+}
+impl Tagged for Pd {
+    const NAME: &'static str = "pd";
+    fn make(k: u32) -> Self {
+        Pd { k, t: tag(k), by_probe: false }
+    }
+    fn ok(&self, k: u32) -> bool {
+        self.k == k && self.t == tag(k)
+    }
+    fn consumed_by_probe(&mut self) {
+        self.by_probe = true;
+    }
+}
+
+/// random mixtures draw from the first NTYPES types; "pd" (index 10) only on request
 const NTYPES: u32 = 10;
-const TYPE_NAMES: [&str; 10] = ["z", "u8", "u128", "arr", "a64", "vec", "dv", "zd", "a64d", "arrd"];
+const TYPE_NAMES: [&str; 11] = ["z", "u8", "u128", "arr", "a64", "vec", "dv", "zd", "a64d", "arrd", "pd"];
 
 enum AnyH {
     Z(JoinHandle<Z>),
@@ -265,6 +296,7 @@ enum AnyH {
     Zd(JoinHandle<Zd>),
     A64d(JoinHandle<A64d>),
     Arrd(JoinHandle<Arrd>),
+    Pd(JoinHandle<Pd>),
 }
 
 // ------------------------------------------------------------------------------------------
@@ -284,6 +316,37 @@ struct ThreadPlan {
     pk: u8,
     /// what the closure does before it finishes (see `work`)
     wk: u8,
+    /// alignment of a value the closure OWNS (captured by value): 0 none, 16, 32, 64, 4096
+    ck: u16,
+}
+
+macro_rules! cap_type {
+    ($name:ident, $al:literal) => {
+        #[repr(align($al))]
+        struct $name([u8; 96]);
+        impl $name {
+            fn new(k: u32) -> Self {
+                $name([tag(k) as u8; 96])
+            }
+        }
+    };
+}
+cap_type!(C16, 16);
+cap_type!(C32, 32);
+cap_type!(C64, 64);
+cap_type!(C4096, 4096);
+
+/// The closure checks the value it owns: is it where its type says it may be (address a multiple of
+/// the type's alignment - read through black_box, the compiler may otherwise assume it), and does it
+/// still hold what was put into it?  Reported as an event, not left to an alignment fault.
+#[inline(never)]
+fn cap_check(p: *const u8, align: usize, k: u32) {
+    let a = core::hint::black_box(p as usize);
+    let mut same = true;
+    for i in 0..96 {
+        same &= unsafe { p.add(i).read_volatile() } == tag(k) as u8;
+    }
+    Ev::new("cap").u("k", k as u64).u("align", align as u64).u("mod", (a % align) as u64).b("ok", a % align == 0 && same).emit();
 }
 
 pub const NPANIC: u8 = 11;
@@ -524,7 +587,24 @@ fn spawn_t<T: Tagged>(p: ThreadPlan) -> Option<JoinHandle<T>> {
         .s("fin", if p.panic { "panic" } else { "ret" })
         .u("party", p.party as u64)
         .emit();
-    let r = tiny_std::thread::spawn(move || body::<T>(p));
+    macro_rules! with_cap {
+        ($ty:ident, $al:literal) => {{
+            let c = $ty::new(p.k);
+            tiny_std::thread::spawn(move || {
+                cap_check(core::ptr::from_ref(&c).cast::<u8>(), $al, p.k);
+                let v = body::<T>(p);
+                core::hint::black_box(&c);
+                v
+            })
+        }};
+    }
+    let r = match p.ck {
+        16 => with_cap!(C16, 16),
+        32 => with_cap!(C32, 32),
+        64 => with_cap!(C64, 64),
+        4096 => with_cap!(C4096, 4096),
+        _ => tiny_std::thread::spawn(move || body::<T>(p)),
+    };
     match r {
         Ok(h) => {
             Ev::new("spawn_ret").u("k", p.k as u64).b("ok", true).emit();
@@ -594,7 +674,7 @@ fn h_race(n: u32, seed: u64, spin: u32, drop_pct: u32) {
     for i in 0..n {
         let k = NEXT_K.fetch_add(1, Ordering::SeqCst);
         STARTED[k as usize % MAXK].store(false, Ordering::SeqCst);
-        let plan = ThreadPlan { k, party: 0, panic: false, pre: 0, gate: false, hgate: false, pk: 0, wk: 0 };
+        let plan = ThreadPlan { k, party: 0, panic: false, pre: 0, gate: false, hgate: false, pk: 0, wk: 0, ck: 0 };
         let join = rng.below(100) >= drop_pct;
         let wait = spin_wait_started;
         macro_rules! go {
@@ -642,7 +722,8 @@ fn spawn_any(ty: u32, p: ThreadPlan) -> Option<AnyH> {
         6 => spawn_t::<Dv>(p).map(AnyH::Dv),
         7 => spawn_t::<Zd>(p).map(AnyH::Zd),
         8 => spawn_t::<A64d>(p).map(AnyH::A64d),
-        _ => spawn_t::<Arrd>(p).map(AnyH::Arrd),
+        9 => spawn_t::<Arrd>(p).map(AnyH::Arrd),
+        _ => spawn_t::<Pd>(p).map(AnyH::Pd),
     }
 }
 
@@ -658,6 +739,7 @@ fn join_any(k: u32, h: AnyH) {
         AnyH::Zd(h) => join_t(k, h),
         AnyH::A64d(h) => join_t(k, h),
         AnyH::Arrd(h) => join_t(k, h),
+        AnyH::Pd(h) => join_t(k, h),
     }
 }
 
@@ -673,6 +755,7 @@ fn drop_any(k: u32, h: AnyH) {
         AnyH::Zd(h) => drop_t(k, h),
         AnyH::A64d(h) => drop_t(k, h),
         AnyH::Arrd(h) => drop_t(k, h),
+        AnyH::Pd(h) => drop_t(k, h),
     }
 }
 
@@ -690,7 +773,7 @@ enum HOp {
 enum Cmd {
     None,
     Batch { n: u32, seed: u64, conc: u32, panic_pct: u32, drop_pct: u32, types: u32 },
-    One { ty: u32, panic: bool, op: u8, pre: u32, hdelay: u32, gate: u8, pk: u8, wk: u8 },
+    One { ty: u32, panic: bool, op: u8, pre: u32, hdelay: u32, gate: u8, pk: u8, wk: u8, ck: u16 },
     Prog { ops: [HOp; 8], n: usize },
     Race { n: u32, seed: u64, spin: u32, drop_pct: u32 },
 }
@@ -753,7 +836,8 @@ fn h_batch(n: u32, seed: u64, conc: u32, panic_pct: u32, drop_pct: u32, types: u
         // kinds that hold a process-wide print lock are left to their own runs
         let pk = [0u8, 3, 4, 5, 6, 7, 8, 9][rng.below(8) as usize];
         let wk = [0u8, 0, 0, 0, 3, 4, 1, 2][rng.below(8) as usize];
-        let plan = ThreadPlan { k, party: 0, panic: rng.below(100) < panic_pct, pre, gate: false, hgate: false, pk, wk };
+        let ck = [0u16, 0, 16, 32, 64, 0][rng.below(6) as usize];
+        let plan = ThreadPlan { k, party: 0, panic: rng.below(100) < panic_pct, pre, gate: false, hgate: false, pk, wk, ck };
         let Some(h) = spawn_any(ty, plan) else { continue };
         if used == conc {
             // evict a random victim first
@@ -775,11 +859,11 @@ fn h_batch(n: u32, seed: u64, conc: u32, panic_pct: u32, drop_pct: u32, types: u
     }
 }
 
-fn h_one(ty: u32, panic: bool, op: u8, pre: u32, hdelay: u32, gate: u8, pk: u8, wk: u8) {
+fn h_one(ty: u32, panic: bool, op: u8, pre: u32, hdelay: u32, gate: u8, pk: u8, wk: u8, ck: u16) {
     let k = NEXT_K.fetch_add(1, Ordering::SeqCst);
     CUR_K.store(k, Ordering::SeqCst);
-    let plan = ThreadPlan { k, party: 0, panic, pre, gate: gate == 1, hgate: gate == 2, pk, wk };
-    if gate == 2 {
+    let plan = ThreadPlan { k, party: 0, panic, pre, gate: gate == 1, hgate: gate == 2 || gate == 3, pk, wk, ck };
+    if gate == 2 || gate == 3 {
         HGATE.store(0, Ordering::SeqCst);
     }
     let r = spawn_any(ty, plan);
@@ -794,7 +878,14 @@ fn h_one(ty: u32, panic: bool, op: u8, pre: u32, hdelay: u32, gate: u8, pk: u8, 
     }
     match op {
         0 => join_any(k, h),
-        1 => drop_any(k, h),
+        1 => {
+            drop_any(k, h);
+            if gate == 3 {
+                // the handle is gone: only now may the closure finish (the thread has to clean up)
+                HGATE.store(1, Ordering::SeqCst);
+                sys::futex_wake(HGATE.as_ptr() as usize, 8);
+            }
+        }
         _ => {
             let kept = unsafe { KEPT.get() };
             if let Some(s) = kept.iter_mut().find(|s| s.is_none()) {
@@ -817,7 +908,7 @@ fn h_prog(ops: &[HOp]) {
             HOp::Spawn { party, ty, panic } => {
                 // panic kinds 0, 3..9 in turn (the kinds that hold a process-wide print lock have their own runs)
                 let r = ((base + party as u32) % 8) as u8;
-                let plan = ThreadPlan { k: base + party as u32, party, panic, pre: 0, gate: false, hgate: false, pk: if r == 0 { 0 } else { r + 2 }, wk: 0 };
+                let plan = ThreadPlan { k: base + party as u32, party, panic, pre: 0, gate: false, hgate: false, pk: if r == 0 { 0 } else { r + 2 }, wk: 0, ck: 0 };
                 handles[party as usize] = spawn_any(ty, plan);
             }
             HOp::Join { party } => {
@@ -852,7 +943,7 @@ fn h_main() {
         match cmd {
             Cmd::None => {}
             Cmd::Batch { n, seed, conc, panic_pct, drop_pct, types } => h_batch(n, seed, conc, panic_pct, drop_pct, types),
-            Cmd::One { ty, panic, op, pre, hdelay, gate, pk, wk } => h_one(ty, panic, op, pre, hdelay, gate, pk, wk),
+            Cmd::One { ty, panic, op, pre, hdelay, gate, pk, wk, ck } => h_one(ty, panic, op, pre, hdelay, gate, pk, wk, ck),
             Cmd::Prog { ops, n } => h_prog(&ops[..n]),
             Cmd::Race { n, seed, spin, drop_pct } => h_race(n, seed, spin, drop_pct),
         }
@@ -997,7 +1088,7 @@ fn cmd_one(line: &str) {
         GATE.store(0, Ordering::SeqCst);
     }
     sched::WAIT_ADDR.store(0, Ordering::SeqCst);
-    let s = send(Cmd::One { ty, panic, op, pre: num(line, "pre", 0) as u32, hdelay: num(line, "hdelay", 0) as u32, gate: gmode, pk: num(line, "pk", 0) as u8, wk: num(line, "wk", 0) as u8 });
+    let s = send(Cmd::One { ty, panic, op, pre: num(line, "pre", 0) as u32, hdelay: num(line, "hdelay", 0) as u32, gate: gmode, pk: num(line, "pk", 0) as u8, wk: num(line, "wk", 0) as u8, ck: num(line, "ck", 0) as u16 });
     if wake {
         let woken = sched::stray_wake(1_500_000);
         if woken > 0 {
